@@ -1,16 +1,117 @@
-"""C01 - Declared order: blocks, then actions of a sequence, each gated on success."""
+"""C01 - Declared order: blocks, then actions of a sequence, each gated on success.
+
+Formal statement: the monitor `mon_order` (coq/c01/MonC01.v), a fold over the PLUGIN events of one plan run
+(EvStart / EvEnd; writes are not invocations) with clauses
+  (i)   blocks one at a time in declared order (the block index of plugin events never decreases; nothing of a block
+        once the plan's post / deferred group has begun),
+  (ii)  within a sequence: one invocation at a time, actions in index order, action i+1 only after action i's LAST
+        return was ok, after a transient failure only the same action again, nothing after a failed action,
+  (iii) every sequence action of block b only after every action of the plan's pre group, the plan's continuous
+        group, block b's pre group and block b's continuous group has returned ok (the completed all-ok run of the
+        pre groups and the initial run of the continuous groups),
+  (iv)  a scope's post group only after its sequences (plan: its blocks), its deferred group only after its post
+        group and its sequences; background runs of continuous groups and overrun returns (the engine enforced the
+        attempt's deadline and no longer waits: plugin contract) are exempt (DESIGN.md section 11).
+
+Theorem (coq/c01/props/C01.v, closed under the global context):
+  c01_order_and_gates : forall sh tr s, shape_wf sh = true -> run sh init tr = Some s -> mon_order (sh, tr) = true
+for ALL shapes, outcome scripts and interleavings the engine automaton (coq/engine) admits, proved by the product
+invariant InvC01.R (kept by every epsilon-move and by every handler).
+
+Every run:
+  * the proofs are re-checked; lib/props/smgraph.py regenerates the state-chain graph from the Go source and re-proves
+    the dominance facts that are the SECOND, source-derived tie of the phase order this property is about
+    (ExecuteSequences only through PlanPreChecks/PlanStartContChecks/BlockPreChecks/BlockStartContChecks;
+    BlockPostChecks only through ExecuteSequences; PlanPostChecks only through ExecuteBlock; BlockEnd only through
+    BlockDeferredChecks; after PlanDeferredChecks only End; the graph is the declared one, per return site);
+  * real engine traces (profiles order, tol, cont, gate, mixed) must be accepted by the automaton AND satisfy
+    mon_order; a false monitor is a concrete violation with the trace as replay (one per violated clause).
+"""
+import json
+import os
+
 from props import engine_common as ec
 from props import smgraph
+from vf import framework as fw
+
+CLAUSES = {1: "(i) blocks one at a time in declared order", 2: "(ii) actions of a sequence in order, each after its predecessor's ok",
+           3: "(iii) sequence action before the pre / initial continuous checks passed",
+           4: "(iv) post after the sequences, deferred after post and sequences"}
+
+CITED = ["graph_as_declared", "phase_graph_as_declared", "execute_sequences_gated", "execute_sequences_gated_per_block",
+         "after_block_deferred_no_sequences_of_this_block", "block_post_only_through_sequences",
+         "block_post_only_through_sequences_per_block", "plan_post_only_through_execute_block", "plan_post_predecessor",
+         "block_end_only_through_block_deferred", "after_plan_deferred_only_end", "entry_points_have_no_predecessor_but_recovery"]
+
+_SM = {}
+
+
+def _smgraph(ctx):
+    res = smgraph.check_smgraph(ctx)
+    _SM.update(res)
+    for t in CITED:
+        ctx.oblige("C01 cites smgraph fact %s (re-proved on the graph extracted from the source)" % t,
+                   t in res.get("theorems", []) and t not in res.get("failed", []))
+    return res
 
 
 def run(ctx):
-    ec.run_engine_check(
+    out = ec.run_engine_check(
         ctx,
-        profile=[("order", 220, 2400), ("mixed", 80, 1200)],
+        profile=[("order", 300, 3000), ("tol", 180, 720), ("cont", 80, 800), ("gate", 112, 448), ("mixed", 120, 1500)],
         n_quick=0, n_thorough=0,
         extra_header="From Coercion.C01 Require Import MonC01.",
         monitors=["mon_order", ("mon_order_diag", "list")],
         release_obligation=False,
+        multi_quick=24, multi_thorough=300,
         proj="c01",
-        pre_checks=[smgraph.check_smgraph],
+        pre_checks=[_smgraph],
+        rule_extra="mon_order_diag = [0] holds | [1; event index; clause 1..4; 1 Start / 2 End].",
+        assumptions=["the automaton's acceptance of the real traces (corr_ok) is what transfers the theorem to the code; "
+                     "mon_order on the real trace itself is what yields a concrete failing trace when it does not"],
+        not_covered=["Not covered: order of goroutines that emit no plugin event; how many attempts an action may have beyond "
+                     "what clause (ii) needs (C05); launch guard / concurrency (C02, C03); bypass gating (C06); continuous "
+                     "failures (C07); Hang traces are only noted here (release obligation: C04 / C06)"],
     )
+    if not out:
+        return
+    # one concrete violation per violated CLAUSE (run_engine_check reports the smallest failing trace overall)
+    by_clause = {}
+    for c, r in out["mon_bad"].get("mon_order_diag", []):
+        d = r[2] if r and len(r) > 2 else None
+        if d and d[0] == 1 and len(d) >= 3:
+            by_clause.setdefault(d[2], []).append((c, r))
+    mons = ec._mon_specs(["mon_order", ("mon_order_diag", "list")])
+    reported = set()
+    for rel in ctx.violations:
+        try:
+            rp = json.load(open(os.path.join(fw.ROOT, rel)))
+            d = (rp.get("check_result") or [None, None, None])[2]
+            if rp.get("kind") == "monitor-false" and d and d[0] == 1:
+                reported.add(d[2])
+        except (OSError, ValueError, IndexError, TypeError):
+            pass
+    hist = {}
+    for cl, lst in sorted(by_clause.items()):
+        hist[CLAUSES.get(cl, str(cl))] = len(lst)
+        if cl in reported:
+            continue
+        lst.sort(key=lambda x: ec._size(x[0]))
+        c, r = lst[0]
+        ctx.violation(ec._replay_obj(ctx, c, "monitor-false", "mon_order false: clause %s violated at event #%d (%s) of the real "
+                                     "engine's trace; %d traces violate this clause" % (CLAUSES.get(cl, cl), r[2][1],
+                                                                                         "EvStart" if r[2][3] == 1 else "EvEnd", len(lst)),
+                                     r, mons, dict(failing_monitor="mon_order", clause=cl, failing_cases=[x[0]["id"] for x in lst[:30]])))
+    # augment the evidence
+    path = os.path.join(fw.ROOT, "evidence", ctx.pid + ".json")
+    try:
+        ev = json.load(open(path))
+        ev["coverage"]["c01"] = dict(violated_clauses=hist, smgraph=smgraph.coverage(_SM).get("smgraph"), cited_smgraph_facts=CITED,
+                                     theorem="c01_order_and_gates : forall sh tr s, shape_wf sh = true -> run sh init tr = Some s -> "
+                                             "mon_order (sh, tr) = true")
+        ev["violations"] = len(ctx.violations)
+        ev["coverage"]["obligations"] = len(ctx.obligations)
+        ev["coverage"]["discharged"] = sum(1 for _, ok in ctx.obligations if ok)
+        json.dump(ev, open(path, "w"), indent=1, default=str)
+    except (OSError, ValueError, KeyError):
+        pass
